@@ -20,7 +20,7 @@ func FetchBlockFromOneBlockStore(
 	if obfs, err := listOneBlocks(ctx, num, num+1, store); err == nil {
 		canonicalID := NormalizeBlockID(id)
 		for _, obf := range obfs {
-			if strings.HasSuffix(canonicalID, obf.ID) {
+			if obf.Num == num && strings.HasSuffix(canonicalID, obf.ID) {
 				data, err := obf.Data(ctx, OneBlockDownloaderFromStore(store))
 				if err != nil {
 					return nil, err
@@ -41,7 +41,7 @@ func FetchBlockMetaFromOneBlockStore(
 	if obfs, err := listOneBlocks(ctx, num, num+1, store); err == nil {
 		canonicalID := NormalizeBlockID(id)
 		for _, obf := range obfs {
-			if strings.HasSuffix(canonicalID, obf.ID) {
+			if obf.Num == num && strings.HasSuffix(canonicalID, obf.ID) {
 				data, err := obf.Data(ctx, OneBlockDownloaderFromStore(store))
 				if err != nil {
 					return nil, err
